@@ -160,7 +160,9 @@ fn replace_self(tokens: TokenStream, ty: &syn::Ident) -> TokenStream {
         .into_iter()
         .map(|tt| match tt {
             proc_macro2::TokenTree::Ident(i) if i == "Self" => {
-                proc_macro2::TokenTree::Ident(syn::Ident::new(&ty.to_string(), i.span()))
+                let mut ty = ty.clone();
+                ty.set_span(i.span());
+                proc_macro2::TokenTree::Ident(ty)
             }
             proc_macro2::TokenTree::Group(g) => {
                 let mut group = proc_macro2::Group::new(
